@@ -113,6 +113,9 @@ def discharge(ob, timeout_ms, use_cvc5=True):
         allok = False
         break
       sub = [(a, z3.BoolVal(v)) for a, v in zip(ob.cases, combo)]
+      # goals are stored simplified: the atoms must be matched in their simplified form too
+      sub += [(z3.simplify(a), z3.BoolVal(v)) for a, v in zip(ob.cases, combo)
+              if not z3.simplify(a).eq(a) and not z3.is_true(z3.simplify(a)) and not z3.is_false(z3.simplify(a))]
       lits = [a if v else z3.Not(a) for a, v in zip(ob.cases, combo)]
       pc2 = [z3.simplify(z3.substitute(p, *sub)) for p in ob.pc] + lits
       if any(z3.is_false(p) for p in pc2):
